@@ -14,7 +14,7 @@ GenInitList == [i \in 1..Cardinality(Keys) |-> i]
 \* senders: 1 A (v4 non-DNS target)  2 B (v4 port 53 target)  3 forbidden destination  4 C (v6 non-DNS target)
 \*          5 D (v6 port 53 target)  6 other port of A's host  7 stranger (v4)  8 stranger on port 53
 \*          9 stranger bound to the zoned link-local address  10 E (public v4 target on eth0)
-GenFam == [s \in Senders |-> IF s \in {4, 5} THEN "v6" ELSE IF s = 9 THEN "zoned" ELSE "v4"]
+GenFam == [s \in Senders |-> IF s \in {4, 5, 13} THEN "v6" ELSE IF s = 9 THEN "zoned" ELSE "v4"]
 D(c, k, hdr, dst, cls) == [c |-> c, k |-> k, hdr |-> hdr, dst |-> dst, cls |-> cls]
 R(s, cls) == [s |-> s, cls |-> cls]
 \* real-socket driver: all clients, all keys and no key, every size class, allowed v4/v6/DNS and forbidden destinations
@@ -23,6 +23,14 @@ GenDgReal == {D(c, k, TRUE, dst, cls) : c \in Clients, k \in Keys \cup {0}, dst 
                \cup {D(c, k, TRUE, 3, cls) : c \in Clients, k \in Keys, cls \in {"0", "1", "1000"}}
 GenRpReal == {R(s, cls) : s \in {1, 2, 4, 6, 7, 8, 10}, cls \in {"0", "1", "1000"}}
                \cup {R(s, cls) : s \in {1, 4}, cls \in {"fit", "fit1", "big"}}
+\* real-socket driver with the handler's DEFAULT validator (RequirePublicIP), destinations also named by HOST NAME
+\* (SOCKS type 3): 11 = localhost (-> 127.0.0.1, forbidden), 12 = a name resolving to the public target E (allowed),
+\* 13 = a name resolving to the ULA address fd00::2 (forbidden); the loopback literals 1, 2, 4 and the ULA literal 3 are
+\* forbidden here, only 10 and 12 are allowed
+GenDgDef == {D(c, k, TRUE, dst, cls) : c \in Clients, k \in Keys \cup {0}, dst \in {10, 12}, cls \in {"0", "1", "1000", "max"}}
+              \cup {D(c, k, TRUE, dst, cls) : c \in Clients, k \in Keys, dst \in {1, 3, 4, 11, 13}, cls \in {"0", "1"}}
+              \cup {D(c, k, FALSE, 10, "1") : c \in Clients, k \in Keys}
+GenRpDef == {R(s, cls) : s \in {10, 6, 7, 8}, cls \in {"0", "1", "1000"}} \cup {R(10, "fit"), R(10, "big")}
 \* virtual-time natmap harness: only forwarded datagrams matter (the harness plays the Handle loop)
 GenDgVirt == {D(c, 1, TRUE, dst, "1") : c \in Clients, dst \in {1, 2}}
 GenRpVirt == {R(s, "1") : s \in {1, 2, 7, 8}}
